@@ -91,6 +91,16 @@ Lemma abort_press m g s num v :
   /\ motion_lock (fst (input_step s (KAbort Pressed))) = true.
 Proof. intros -> ->. destruct m; repeat split; reflexivity. Qed.
 
+(* records carrying the init flag map to no input code in any mode *)
+Lemma gp_map_init m g e : ev_ty e = TButtonInit \/ ev_ty e = TAxisInit -> snd (gp_map m g e) = None.
+Proof. destruct e as [t n v]. cbn [ev_ty]. intros [-> | ->]; destruct m; reflexivity. Qed.
+Lemma init_type ty t : etype_of ty = Some t -> (128 <=? ty) = true -> t = TButtonInit \/ t = TAxisInit.
+Proof.
+  unfold etype_of. intros H Hge. apply Z.leb_le in Hge.
+  destruct (ty =? 1) eqn:E1; [lia|]. destruct (ty =? 2) eqn:E2; [lia|].
+  destruct (ty =? 129); [injection H as <-; left; reflexivity|]. destruct (ty =? 130); [injection H as <-; right; reflexivity | discriminate].
+Qed.
+
 Theorem c18_holds : forall c, c18_wf c = true -> c18_spec_ok c (c18_model c) = true.
 Proof.
   intros [m d ty num v] Hwf. unfold c18_wf in Hwf. cbn [i_mode i_state i_ty i_num i_value] in Hwf.
@@ -107,14 +117,18 @@ Proof.
   - destruct (input_step_ok (d_in d) code Hwf) as [Ho Hr].
     { destruct code; try exact I; exact Hk. }
     destruct (input_step (d_in d) code) as [s' o] eqn:Is. cbn [fst snd d_in] in *.
-    rewrite Ho, Hr. cbn [andb].
-    unfold is_abort_press. cbn [i_ty i_num i_value].
-    destruct ((ty =? 1) && (num =? 1) && (v =? 1)) eqn:Ab; [|reflexivity]. cbn [implb].
-    assert (ty = 1 /\ num = 1 /\ v = 1) as (-> & -> & ->) by lia.
-    cbn in Et. injection Et as <-. subst e.
-    destruct (abort_press m (d_pad d) (d_in d) 1 1 eq_refl eq_refl) as (A1 & A2 & A3).
-    rewrite Gm in A1. cbn [snd] in A1. injection A1 as ->. rewrite Is in A2, A3. cbn [fst snd] in *. subst o. exact A3.
-  - cbn [out_ok d_in]. rewrite Hwf. cbn [andb].
+    rewrite Ho, Hr. cbn [andb]. apply andb_true_intro. split.
+    + unfold is_abort_press. cbn [i_ty i_num i_value].
+      destruct ((ty =? 1) && (num =? 1) && (v =? 1)) eqn:Ab; [|reflexivity]. cbn [implb].
+      assert (ty = 1 /\ num = 1 /\ v = 1) as (-> & -> & ->) by lia.
+      cbn in Et. injection Et as <-. subst e.
+      destruct (abort_press m (d_pad d) (d_in d) 1 1 eq_refl eq_refl) as (A1 & A2 & A3).
+      rewrite Gm in A1. cbn [snd] in A1. injection A1 as ->. rewrite Is in A2, A3. cbn [fst snd] in *. subst o. exact A3.
+    + destruct (128 <=? ty) eqn:Hi; [|reflexivity]. exfalso.
+      pose proof (gp_map_init m (d_pad d) e) as Gi. subst e. cbn [ev_ty] in Gi.
+      rewrite Gm in Gi. cbn [snd] in Gi. specialize (Gi (init_type ty t Et Hi)). discriminate Gi.
+  - cbn [out_ok d_in]. rewrite Hwf. cbn [andb]. apply andb_true_intro. split;
+      [|destruct (128 <=? ty); destruct (motion_lock (d_in d)); reflexivity].
     unfold is_abort_press. cbn [i_ty i_num i_value].
     destruct ((ty =? 1) && (num =? 1) && (v =? 1)) eqn:Ab; [|reflexivity]. exfalso.
     assert (ty = 1 /\ num = 1 /\ v = 1) as (-> & -> & ->) by lia.
@@ -137,7 +151,7 @@ Proof.
   destruct (etype_of ty) eqn:E; [|congruence].
   assert (W : rpm_ok (engine_rpm (d_in d)) && (-32768 <=? v) && (v <? 32768) && (0 <=? num) && (num <? 256) && true = true) by (rewrite Hd; lia).
   specialize (H W). destruct (daemon_step m d ty num v) as [[d' o]|]; [|exact Hd].
-  apply andb_prop in H as [H _]. apply andb_prop in H as [_ H]. exact H.
+  apply andb_prop in H as [H _]. apply andb_prop in H as [H _]. apply andb_prop in H as [_ H]. exact H.
 Qed.
 
 (* the command-line client: the six words in any letter case, nothing else *)
